@@ -31,6 +31,13 @@ Case kinds (each replayable through execute):
           hand-built Feature(attributes=<dict with scalar values>) objects stored with create_db / update: attributes
           read from there are sequences of strings (scalar wrapped), the printed line / == / hash are those of the list
           form and of the feature parsed from the proper line
+Values are given as plain str / list / tuple and as instances of SUBCLASSES of these (Name(str), TagList(list),
+TagTuple(tuple); namedtuples of strings in kind print) in every kind that sets values (json, db, set, print, edit, eq
+pools, merge arguments): a sequence of strings stays that sequence (not wrapped once more), a str-subclass scalar is
+wrapped; kind set then runs merge_attributes on the feature's attributes (union model, argument untouched), kind print
+compares the feature with a twin given the same values as plain lists (==, !=, hash, set).  Pools of kind eq hold database
+records with identical printed lines under different primary keys (a line written 2-3 times: generated keys, or
+merge_strategy='create_unique').
 Origins jsontext / jsondb (feature from scalar-valued JSON text / from a rewritten row) also feed kinds set, print, edit.
 The icontract invariant on the real Attributes class (contracts.install_attributes) is active throughout and drained
 after every case.
@@ -61,7 +68,12 @@ RULE = ("mappings of 0-6 keys -> 0-4 values over arbitrary Unicode (JSON-structu
         "sjson: 1-5 keys, first value scalar, others 65% scalar, arbitrary Unicode or reparse-safe, four JSON layouts, "
         "routes text / UPDATE via own connection on a file / UPDATE via the database's connection / hand-built features "
         "through create_db or update (1-3 features, memory or file + reopen). "
-        "Non-trivial = the mapping has a scalar-set value or a non-ASCII/control/escape-worthy character (json, set, "
+        "every generated value form is with probability 0.18 an instance of a subclass of its type: Name(str), "
+        "TagList(list), TagTuple(tuple) (kind print: half of the tuple subclass instances are namedtuples of strings); 15% "
+        "of the merge cases give one argument's lists as TagList and its scalars as Name; eq pools additionally hold two "
+        "records of a database built from the ID-less line written 2-3 times (keys gene_1, gene_2) and both records of "
+        "the ID-carrying line written twice under merge_strategy='create_unique' (keys x, x_1). "
+        "Non-trivial = the mapping has a scalar-set or subclass-instance value or a non-ASCII/control/escape-worthy character (json, set, "
         "print, db), the arguments share a key (merge), the pool has equal distinct objects (eq), an observation precedes "
         "an edit (edit), always (sjson); distinct by case content")
 REQUIRED = ["alias: re-fetched features compared with the stored text", "alias: repeated decodes compared",
@@ -95,7 +107,22 @@ REQUIRED = ["alias: re-fetched features compared with the stored text", "alias: 
             "edit: setdefault with a scalar default on a missing key",
             "sjson: texts decoded with _unjsonify", "sjson: Feature(attributes=text) compared with the list form",
             "sjson: compared with the feature parsed from the proper line", "sjson: database rows rewritten with plain sqlite3",
-            "sjson: features read from rewritten rows", "sjson: hand-built features read back"]
+            "sjson: features read from rewritten rows", "sjson: hand-built features read back",
+            "set: sublist-set values", "set: subtuple-set values", "set: substr-set values",
+            "set: subclass instances set through feature_setitem", "set: subclass instances set through attr_setitem",
+            "set: subclass instances set through update_dict", "set: subclass instances set through update_kwargs",
+            "set: subclass instances set through update_pairs", "set: subclass instances set through update_attrs",
+            "set: subclass instances set through setdefault", "set: subclass instances set while always_return_list=False",
+            "set: subclass instances set while always_return_list=True",
+            "set: setdefault with a substr default on a missing key", "set: setdefault with a sublist default on a missing key",
+            "set: merge_attributes afterwards judged", "set: merge_attributes judged after a subclass instance was set",
+            "print: features printed after a subclass instance was set", "print: features printed after a ntuple value was set",
+            "print: features printed after a sublist value was set", "print: features printed after a substr value was set",
+            "print: twin holding the same values as plain lists compared (==, !=, hash, set)",
+            "json: mappings with a value set as an instance of a list / tuple / str subclass",
+            "db: values set as instances of list / tuple / str subclasses stored",
+            "merge: calls with values given as list / str subclass instances",
+            "eq: pairs of database features with equal printed lines under different primary keys"]
 REQUIRED_CLASSES = ["set origin=line", "set origin=db", "print origin=line", "print origin=db", "merge dict,dict",
                     "merge attrs,attrs", "merge dict,attrs", "merge attrs,dict", "set origin=jsontext", "set origin=jsondb",
                     "db with lone surrogates, file", "db with lone surrogates, memory", "edit origin=line", "edit origin=db", "edit origin=jsontext", "edit origin=jsondb",
@@ -106,6 +133,13 @@ ASSUMPTIONS = [
     "'sequence of strings' = list or tuple of str (a tuple that was set stays a legitimate stored value); JSON identity "
     "and database read-back are judged on key order and on values as sequences (a tuple comes back as a list); Python "
     "== between the two Attributes objects is asked only when no tuple was stored",
+    "instances of subclasses of list / tuple are sequences of strings like any other and must be stored as the values, a "
+    "str-subclass instance is a scalar; what is stored may be the object given or a copy (judged: it is a list / tuple "
+    "of str with the elements that were set); namedtuples of strings are set in kind print only, where no JSON text is "
+    "asked for: on the unchanged tree simplejson writes a namedtuple value as a JSON OBJECT ({\"f0\":..}), so the stored "
+    "text does not read back to the values (reported to the maintainers of this check, not generated)",
+    "kind set, merge afterwards: the second argument is derived from the attributes (first key: its first value again "
+    "plus one new value; one key of its own holding a repeated value); asked only when no tuple is stored",
     "a high surrogate directly followed by a low surrogate is the same JSON text as the astral character: such code-point "
     "sequences are not generated; lone surrogates are used in memory (kind json) and in attribute keys/values stored with "
     "create_db/update (kind db: the unchanged tree stores and returns them, its JSON text being pure ASCII); ids and "
@@ -267,7 +301,7 @@ def run_json(ctx, case):
         elif bad_value(there) or as_lists(there) != want:
             why = "_unjsonify(_jsonify(a)) differs from a (keys, key order or values)"
             extra = {"json": text, "got": repr(there), "expected": want}
-        elif not eq and not any(form[0] == "tuple" for _, form in items):
+        elif not eq and not any(form[0] in M.TUPLE_FORMS for _, form in items):
             why = "_unjsonify(_jsonify(a)) == a is False"
             extra = {"json": text}
         elif text2 != text:
@@ -280,6 +314,8 @@ def run_json(ctx, case):
             why = "Feature(attributes=<JSON text>) differs from the original attributes"
             extra = {"json": text, "got": repr(ctor), "expected": want}
     ctx.mon("json: identities checked")
+    if any(form[0] in M.SUBCLASS_FORMS for _, form in items):
+        ctx.mon("json: mappings with a value set as an instance of a list / tuple / str subclass")
     ctx.mon("json: Feature(attributes=text) round trips")
     if any(G.has_surrogate(c) for c in text_of_forms(items)):
         ctx.mon("json: mappings with lone surrogates")
@@ -295,20 +331,21 @@ def run_json(ctx, case):
 # ---------------------------------------------------------------------------------
 # kind merge
 # ---------------------------------------------------------------------------------
-def build_arg(pairs, typ, shared=False):
-    """shared=True: keys whose value lists are equal hold ONE list object (what f['Name'] = f['ID'] leaves behind)."""
+def build_arg(pairs, typ, shared=False, sub=False):
+    """shared=True: keys whose value lists are equal hold ONE list object (what f['Name'] = f['ID'] leaves behind).
+    sub=True: value lists are TagList(list) instances, scalars Name(str) instances."""
     from gffutils.attributes import Attributes
 
     made = []
 
     def value(v):
         if isinstance(v, str):
-            return v
+            return M.Name(v) if sub else v
         if shared:
             for old in made:
                 if old == list(v):
                     return old
-        new = list(v)
+        new = M.TagList(v) if sub else list(v)
         made.append(new)
         return new
     if typ == "dict":
@@ -333,8 +370,10 @@ def run_merge(ctx, case):
 
     a_pairs, b_pairs = case["a"], case["b"]
     pre = "" if case.get("switch", True) else "while always_return_list is False: "
-    a = build_arg(a_pairs, case["a_type"], shared=case.get("a_shared", False))
-    b = build_arg(b_pairs, case["b_type"], shared=case.get("b_shared", False))
+    a = build_arg(a_pairs, case["a_type"], shared=case.get("a_shared", False), sub=case.get("a_sub", False))
+    b = build_arg(b_pairs, case["b_type"], shared=case.get("b_shared", False), sub=case.get("b_sub", False))
+    if case.get("a_sub") or case.get("b_sub"):
+        ctx.mon("merge: calls with values given as list / str subclass instances")
     for which, obj in (("a", a), ("b", b)):
         if case.get(which + "_shared"):
             lists = [id(v) for v in getattr(obj, "_d", obj).values() if isinstance(v, list)]
@@ -481,6 +520,9 @@ def run_db(ctx, case):
             ctx.violation(case, {"why": "storing features raised %s" % type(ex).__name__, "exception": repr(ex)})
             contracts.drain()
             return
+        nsub = sum(1 for spec in specs for _, form in spec["items"] if form[0] in M.SUBCLASS_FORMS)
+        if nsub:
+            ctx.mon("db: values set as instances of list / tuple / str subclasses stored", nsub)
         ok = compare_db(ctx, case, db, want, "after " + case["route"])
         if ok and case["file"]:
             db.conn.close()
@@ -542,10 +584,21 @@ def build_spec(spec, dbs):
         db = gffutils.create_db(spec["line"], ":memory:", from_string=True)
         dbs.append(db)
         return next(iter(db.all_features()))
+    if spec["via"] == "dbdup":
+        # the line written n times: without ID attribute the records get generated keys (gene_1, gene_2), with an ID and
+        # merge_strategy='create_unique' suffixed keys (x, x_1); the pick-th record under its own primary key
+        db = gffutils.create_db("\n".join([spec["line"]] * spec["n"]) + "\n", ":memory:", from_string=True,
+                                merge_strategy="create_unique" if spec["strategy"] == "create_unique" else "error")
+        dbs.append(db)
+        feats = sorted(db.all_features(), key=lambda f: f.id)
+        if len(feats) != spec["n"] or len(set(f.id for f in feats)) != spec["n"]:
+            raise AssertionError("harness: %d records under %d keys for a line written %d times" % (
+                len(feats), len(set(f.id for f in feats)), spec["n"]))
+        return feats[spec["pick"]]
     c = spec["cols"]
     attrs = {}
     for k, form in spec["attrs"]:
-        attrs[k] = M.build(form) if form[0] != "scalar" else [form[1]]
+        attrs[k] = M.build(form) if form[0] not in M.SCALAR_FORMS else [M.build(form)]
     return Feature(seqid=c[0], source=c[1], featuretype=c[2], start=c[3], end=c[4], score=c[5], strand=c[6], frame=c[7],
                    attributes=attrs, id=spec.get("id"), extra=list(spec.get("extra") or []),
                    dialect=dict(GTF_DIALECT) if spec["dialect"] == "gtf" else None)
@@ -582,6 +635,9 @@ def run_eq(ctx, case):
                     same = sa == sb
                     if same and i != j:
                         ctx.mon("eq: equal pairs of distinct objects")
+                        ia, ib = getattr(a, "id", None), getattr(b, "id", None)
+                        if ia is not None and ib is not None and ia != ib:
+                            ctx.mon("eq: pairs of database features with equal printed lines under different primary keys")
                         if ta != tb:
                             ctx.mon("eq: equal pairs with different astuple()")
                     if not same and ta == tb:
@@ -825,6 +881,9 @@ def run_set(ctx, case):
                     ctx.mon("set: operations while always_return_list=False")
                 for _, form in op["items"]:
                     ctx.mon("set: %s-set values" % form[0])
+                    if form[0] in M.SUBCLASS_FORMS:
+                        ctx.mon("set: subclass instances set through %s" % op["how"])
+                        ctx.mon("set: subclass instances set while always_return_list=%s" % bool(op.get("switch", True)))
         if bad_value(now):
             why = bad_value(now)
             extra = bad_detail(now)
@@ -867,9 +926,75 @@ def run_set(ctx, case):
             ctx.violation(case, dict({"why": why}, **extra))
             contracts.drain()
             return
+        bad = merge_afterwards(ctx, case, f, now)
+        if bad:
+            ctx.violation(case, bad)
+            contracts.drain()
+            return
     finally:
         close_all(dbs)
     drain(ctx, case)
+
+
+def used_subclass(case):
+    return any(form[0] in M.SUBCLASS_FORMS for op in case["ops"] if op["how"] != "delete" for _, form in op["items"])
+
+
+def merge_afterwards(ctx, case, f, now):
+    """merge_attributes keeps working on attributes whose values were set in the ways of the case: the feature's
+    attributes merged with a partner mapping (derived from them: first key with one more value, one new key) is the
+    per-key sorted duplicate-free union, the feature's attributes stay as they are.  Asked when no tuple is stored
+    (tuple-valued arguments: see ASSUMPTIONS)."""
+    from gffutils import helpers
+
+    if any(isinstance(v, tuple) for _, v in now):
+        ctx.mon("set: merge_attributes afterwards not asked (a tuple is stored)")
+        return None
+    a_pairs = as_lists(now)
+    b_pairs = M.merge_partner(a_pairs)
+    before = snapshot(f.attributes)
+    switch = len(a_pairs) % 2 == 0
+    try:
+        with Switch(switch):
+            res = helpers.merge_attributes(f.attributes, dict((k, list(v)) for k, v in b_pairs))
+        result_pairs = [[k, res[k]] for k in res.keys()]
+    except Exception as ex:
+        return {"why": "merge_attributes(feature.attributes, other) raised %s after values were set" % type(ex).__name__,
+                "exception": repr(ex), "attributes": a_pairs, "other": b_pairs, "always_return_list": switch}
+    ctx.mon("set: merge_attributes afterwards judged")
+    if used_subclass(case):
+        ctx.mon("set: merge_attributes judged after a subclass instance was set")
+    if snapshot(f.attributes) != before:
+        return {"why": "merge_attributes modified the attributes of the feature given as first argument", "before": before,
+                "after": snapshot(f.attributes)}
+    why, detail, _classes = M.judge_merge(result_pairs, a_pairs, b_pairs, False)
+    if why:
+        return dict({"why": "merge_attributes after setting values: " + why, "attributes": a_pairs, "other": b_pairs}, **detail)
+    return None
+
+
+def twin_afterwards(ctx, case, f, model, dbs):
+    """A second feature obtained the same way and given the same values as plain lists in one go: == follows the printed
+    lines (both ways), equal features hash alike and are one set member."""
+    g = obtain(case, dbs)
+    for k in list(g.attributes.keys()):
+        del g.attributes[k]
+    for k, v in model.pairs():
+        g.attributes[k] = list(v)
+    sf, sg = str(f), str(g)
+    e, e2, ne = f == g, g == f, f != g
+    ctx.mon("print: twin holding the same values as plain lists compared (==, !=, hash, set)")
+    if sf == sg:
+        ctx.mon("print: twin prints the same line")
+    else:
+        ctx.mon("print: twin prints another line (== judged against the lines only)")
+    info = {"feature": sf, "twin": sg}
+    if bool(e) != (sf == sg) or bool(e2) != (sf == sg) or bool(ne) != (sf != sg):
+        return dict(info, why="(a == b) is %r, (b == a) is %r, (a != b) is %r but the printed lines are %s (b = twin given the "
+                              "same values as plain lists)" % (e, e2, ne, "equal" if sf == sg else "different"))
+    if e and (hash(f) != hash(g) or len({f, g}) != 1):
+        return dict(info, why="a == b but hash(a) != hash(b) or a set keeps both (b = twin given the same values as plain lists)")
+    return None
 
 
 def run_print(ctx, case):
@@ -895,6 +1020,19 @@ def run_print(ctx, case):
                                  "always_return_list=False": s0, "attributes": model.pairs()})
             contracts.drain()
             return
+        if used_subclass(case):
+            ctx.mon("print: features printed after a subclass instance was set")
+            for kind in sorted(set(form[0] for op in case["ops"] if op["how"] != "delete" for _, form in op["items"]
+                                   if form[0] in M.SUBCLASS_FORMS)):
+                ctx.mon("print: features printed after a %s value was set" % kind)
+            try:
+                bad = twin_afterwards(ctx, case, f, model, dbs)
+            except Exception as ex:
+                bad = {"why": "comparing with a twin raised %s" % type(ex).__name__, "exception": repr(ex)}
+            if bad:
+                ctx.violation(case, bad)
+                contracts.drain()
+                return
     finally:
         close_all(dbs)
     drain(ctx, case)
@@ -1486,7 +1624,8 @@ def gen_set_case(rng, kind):
     fmt = "gtf" if rng.random() < 0.3 else "gff3"
     base = gen_base(rng, fmt)
     keys = [k for k, _ in base if k not in ("ID", "gene_id", "transcript_id")]
-    return gen_origin(rng, {"kind": kind, "fmt": fmt, "base": base, "ops": G.ops(rng, keys)})
+    # namedtuples of strings are set in kind print only (where no JSON text is asked for: see ASSUMPTIONS)
+    return gen_origin(rng, {"kind": kind, "fmt": fmt, "base": base, "ops": G.ops(rng, keys, ntuple=(kind == "print"))})
 
 
 def gen_edit_case(rng):
@@ -1524,7 +1663,7 @@ def edit_phase(ctx, rng):
 
 def set_nontrivial(case):
     forms = [form for op in case["ops"] if op["how"] != "delete" for _, form in op["items"]]
-    return any(f[0] == "scalar" for f in forms) or G.is_rich(text_of_forms([i for op in case["ops"] for i in op["items"]]))
+    return any(f[0] in M.SCALAR_FORMS + M.SUBCLASS_FORMS for f in forms) or G.is_rich(text_of_forms([i for op in case["ops"] for i in op["items"]]))
 
 
 # --- known finding F-C17-4 -----------------------------------------------------------
@@ -1561,6 +1700,8 @@ def merge_phase(ctx, rng, n, switch):
                 src = rng.choice(cands)
                 pairs.append([src[0] + "_alias", list(src[1])])
                 case[which + "_shared"] = True
+        if rng.random() < 0.15:
+            case[rng.choice(["a", "b"]) + "_sub"] = True
         execute(ctx, case)
         shared = set(k for k, _ in a) & set(k for k, _ in b)
         ctx.case(case, bool(shared), sample=case if switch else None,
@@ -1587,7 +1728,7 @@ def run(ctx):
         case = {"kind": "json", "items": G.form_mapping(rng, surrogates=sur, nmax=6), "switch": rng.random() < 0.8}
         execute(ctx, case)
         txt = text_of_forms(case["items"])
-        ctx.case(case, any(f[0] == "scalar" for _, f in case["items"]) or G.is_rich(txt), sample=case,
+        ctx.case(case, any(f[0] in M.SCALAR_FORMS + M.SUBCLASS_FORMS for _, f in case["items"]) or G.is_rich(txt), sample=case,
                  cls="json with lone surrogates" if G.has_surrogate(txt) else "json")
     # 2. merge_attributes
     merge_phase(ctx, rng, ctx.budget(16000, 320000), True)
@@ -1601,7 +1742,7 @@ def run(ctx):
         case["latin1"] = case["file"] and rng.random() < 0.75
         execute(ctx, case)
         txt = "".join(text_of_forms(s["items"]) for s in specs)
-        ctx.case(case, G.is_rich(txt) or any(f[0] == "scalar" for s in specs for _, f in s["items"]),
+        ctx.case(case, G.is_rich(txt) or any(f[0] in M.SCALAR_FORMS + M.SUBCLASS_FORMS for s in specs for _, f in s["items"]),
                  cls="db %s %s" % (case["route"], "file" if case["file"] else "memory"))
         if G.has_surrogate(txt):
             ctx.classes["db with lone surrogates, %s" % ("file" if case["file"] else "memory")] += 1
@@ -1656,7 +1797,11 @@ MANIFEST = {
             "create_db/update (lone surrogates and astral characters included) and reads them back (FeatureDB, reopened "
             "FeatureDB, FeatureDB with a latin-1 decoding text_factory, raw sqlite3 bytes: valid ASCII-only JSON), judges "
             "merge_attributes against a union model with argument snapshots, and checks ==, != and hash on all ordered "
-            "pairs of feature pools against equality of the printed lines. Held = no executed case disagreed.",
+            "pairs of feature pools against equality of the printed lines (database records with identical lines under "
+            "different primary keys included). Values are also given as instances of subclasses of str / list / tuple "
+            "through every setting route under both switch settings; afterwards the stored values, the JSON text, the "
+            "printed line, ==/hash against a twin with plain lists and merge_attributes are judged. "
+            "Held = no executed case disagreed.",
     "note": "Trusted: stdlib json/sqlite3, the 60-line model. Not asked: tuple-valued merge arguments, order of equal "
             "numbers, nan/inf ordering, high+low surrogate sequences. F-C17-1 (str(feature) iterates the view when "
             "always_return_list is False) is reported by kind 'print' with reason 'str(feature) depends on always_return_list'.",
